@@ -21,3 +21,6 @@ impl<'a> StrLike for &'a String { open spec fn sv(&self) -> Seq<char> { self@ } 
 pub fn string_from<T: StrLike>(t: T) -> (r: String) ensures r@ == t.sv() { unimplemented!() }
 pub assume_specification<'a, T: Copy>[ Option::<&'a T>::copied ](o: Option<&'a T>) -> (r: Option<T>)
     ensures r == (match o { Some(x) => Some(*x), None => None::<T> });
+pub assume_specification<T, P: FnOnce(&T) -> bool>[ Option::<T>::filter ](o: Option<T>, f: P) -> (r: Option<T>)
+    requires o matches Some(v) ==> f.requires((&v,)),
+    ensures match o { Some(v) => (r == Some(v) && f.ensures((&v,), true)) || (r is None && f.ensures((&v,), false)), None => r is None };
